@@ -23,13 +23,14 @@ Configs == { [a |-> a, b |-> a + w, root |-> r, sign |-> s, eps |-> e, n0 |-> n]
            \cup { [a |-> 20, b |-> 4, root |-> 17, sign |-> s, eps |-> 1, n0 |-> 0] : s \in {1, -1} }        \* ends given in reverse order
 
 Init == I!Init /\ cfg \in Configs
-Next ==
-  \/ /\ I!Begin(cfg.a, cfg.b, cfg.eps, cfg.n0, NHalf(cfg), TRUE,
-                ~(IsRoot(cfg.a, cfg) \/ IsRoot(cfg.b, cfg) \/ Neg(cfg.a, cfg) = Neg(cfg.b, cfg)), Neg(cfg.a, cfg))
-     /\ UNCHANGED cfg
-  \/ (\E x \in 0..30 : I!Step(x, Cls(x, cfg))) /\ UNCHANGED cfg
-  \/ I!Finish /\ UNCHANGED cfg
-  \/ I!Done /\ UNCHANGED cfg
+\* (named disjuncts: TLC then reports how often each was taken - the vacuity guard of the check reads that)
+Begin == /\ I!Begin(cfg.a, cfg.b, cfg.eps, cfg.n0, NHalf(cfg), TRUE,
+                    ~(IsRoot(cfg.a, cfg) \/ IsRoot(cfg.b, cfg) \/ Neg(cfg.a, cfg) = Neg(cfg.b, cfg)), Neg(cfg.a, cfg))
+         /\ UNCHANGED cfg
+Step == (\E x \in 0..30 : I!Step(x, Cls(x, cfg))) /\ UNCHANGED cfg
+Finish == I!Finish /\ UNCHANGED cfg
+Done == I!Done /\ UNCHANGED cfg
+Next == Begin \/ Step \/ Finish \/ Done
 Spec == Init /\ [][Next]_vars /\ WF_vars(Next)
 
 InsideInitialInterval == inside
